@@ -128,7 +128,7 @@ def _limits_by_value(prog, cj, fields, limit_readers):
                             return 'read'
             while isinstance(u, tuple) and u[0] in ('fld', 'as'):
                 u = strip(u[1])
-            if isinstance(u, tuple) and u[0] == 'call' and (u[1] in limit_readers or cname(u[1]) == 'Option::transpose'):
+            if isinstance(u, tuple) and u[0] == 'call' and (u[1] in limit_readers or (cname(u[1]) in ('Option::transpose', 'Option::map') and _reads_limits(u, limit_readers))):
                 return 'read'
         return 'other: ' + show(r, maxdepth=4)
     seen = {}
@@ -369,6 +369,18 @@ def run(ctx):
         ok = not cond and util.loop_source(arg) is not None
         # joints vec and names passed through
         ok = ok and util.is_param(cj.op_term(t2['args'][2], (bi, None)), 3)
+    if not ok and len(rec) >= 1:
+        # several recursion sites (`if not a joint { recurse; continue } .. recurse`): every way round the loop over the children
+        # must pass one of them, each on the loop's own child and with the caller's vector and names
+        nexts = [(bi, t2) for bi, t2 in cj.calls() if cname(callee_name(t2)).split('::')[-1] == 'next' and t2.get('target', -1) >= 0]
+        args_ok = all(util.loop_source(strip(cj.op_term(t2['args'][0], (bi, None)))) is not None and util.is_param(cj.op_term(t2['args'][2], (bi, None)), 3)
+                      for bi, t2 in rec)
+        srcs = {repr(util.loop_source(strip(cj.op_term(t2['args'][0], (bi, None))))) for bi, t2 in rec}
+        if args_ok and len(srcs) == 1 and len(nexts) == 1:
+            nb, nt = nexts[0]
+            rb = tuple(bi for bi, t2 in rec)
+            ok = not cj.reaches(nt['target'], nb, avoid=rb)
+            found = '%d recursion sites; a way round the loop avoids them: %s' % (len(rec), not ok)
     ctx.check(ok, 'R20.5', 'unconditional-recursion', cj.where(rec[0][0]) if rec else cj.where(0), cj.path,
               'every child element must be searched for joints, whatever it is (otherwise nesting changes the result)', found=found)
 
@@ -411,7 +423,30 @@ def run(ctx):
             a = [strip(cj.op_term(x, (bi, None))) for x in t2['args']]
             if isinstance(a[1], tuple) and a[1][0] == 'agg' and 'Ok' in a[1][1] and util.const_val(a[1][2]) == 1 and isinstance(a[2], tuple) and a[2][0] == 'const' and a[2][2] == ax.path:
                 dflt = True
-    ctx.check(dflt, 'R20.7', 'axis-default', cj.where(0), cj.path, 'a joint without <axis> must get sign correction 1, otherwise the axis helper decides')
+    found = None
+    if not dflt:
+        # `match child_named("axis") { Some(a) => get_axis_sign(a)?, None => 1 }` and the like: the stored value, case by case
+        import itertools
+        for i, j, st in cj.stmts():
+            if st['rv']['k'] == 'agg' and 'JointData' in str(st['rv']['kind']):
+                t = cj.rv_term(st['rv'], (i, j))
+                flds = dict(zip([f['name'] for f in prog.adts['urdf::JointData']['variants'][0]['fields']], t[2:]))
+                x = flds.get('sign_correction')
+                if x is None:
+                    continue
+                cls = set()
+                for r in util.case_values(cj, x):
+                    r = strip(util.peval(prog, r))
+                    if util.const_val(r) == 1:
+                        cls.add('one')
+                    elif mir.contains(r, lambda y: (y[0] == 'call' and y[1] == ax.path) or (y[0] == 'const' and y[1] == 'fn' and y[2] == ax.path)) and \
+                            not mir.contains(r, lambda y: y[0] == 'bin' or (y[0] == 'un' and y[1] == 'Neg')):
+                        cls.add('axis')
+                    else:
+                        cls.add('other: ' + show(r, maxdepth=4))
+                found = sorted(cls)
+                dflt = cls == {'one', 'axis'}
+    ctx.check(dflt, 'R20.7', 'axis-default', cj.where(0), cj.path, 'a joint without <axis> must get sign correction 1, otherwise the axis helper decides', found=found)
 
     angle_syntax(ctx, fu)
     joint_names(ctx, cj)
